@@ -127,7 +127,7 @@ func (s LocalStore) Verify(ctx context.Context, n int, repair bool, w io.Writer)
 
 	// Go trough all chunks underneath Base, filtering out other files, then feed
 	// the IDs to the workers
-	err := filepath.Walk(s.Base, func(path string, info os.FileInfo, err error) error {
+	err := filepath.Walk(s.walkRoot(), func(path string, info os.FileInfo, err error) error {
 		// See if we're meant to stop
 		select {
 		case <-ctx.Done():
@@ -168,11 +168,21 @@ func (s LocalStore) Verify(ctx context.Context, n int, repair bool, w io.Writer)
 	return err
 }
 
+// walkRoot returns the directory to walk when going through all chunks. filepath.Walk
+// does not follow a symbolic link given as its root, a store that is reached through
+// one would appear to be empty.
+func (s LocalStore) walkRoot() string {
+	if root, err := filepath.EvalSymlinks(s.Base); err == nil {
+		return root
+	}
+	return s.Base
+}
+
 // Prune removes any chunks from the store that are not contained in a list
 // of chunks
 func (s LocalStore) Prune(ctx context.Context, ids map[ChunkID]struct{}) error {
 	// Go trough all chunks underneath Base, filtering out other directories and files
-	err := filepath.Walk(s.Base, func(path string, info os.FileInfo, err error) error {
+	err := filepath.Walk(s.walkRoot(), func(path string, info os.FileInfo, err error) error {
 		// See if we're meant to stop
 		select {
 		case <-ctx.Done():
